@@ -2,11 +2,11 @@ package main
 
 import (
 	"fmt"
-	"sync"
 	"go/token"
 	"go/types"
 	"sort"
 	"strings"
+	"sync"
 
 	"golang.org/x/tools/go/ssa"
 )
@@ -32,38 +32,38 @@ type Observable struct {
 
 // Exec verifies one function.
 type Exec struct {
-	prog      *Program
-	ctr       *Contracts
-	sc        *Script
-	top       *ssa.Function
-	fc        *FuncContract
-	obls      []*Oblig
-	hsort     map[string]Sort
-	written   map[string]bool
-	discover  int
-	typeCache map[string]types.Type
-	qn        int
-	specDepth int
-	tags      map[string]int
-	tagTypes  []types.Type
-	strs      map[string]int
-	abstr     map[string]bool // abstractions used (reported)
-	externs   map[string]bool // default-external callees used
-	assumed   map[string]bool // assumed contracts used (interfaces, externs, trusted)
-	inlined   map[string]bool
-	entry     *State
-	safeCount map[string]int
-	errs      []string
-	paramObs  []Observable
+	prog        *Program
+	ctr         *Contracts
+	sc          *Script
+	top         *ssa.Function
+	fc          *FuncContract
+	obls        []*Oblig
+	hsort       map[string]Sort
+	written     map[string]bool
+	discover    int
+	typeCache   map[string]types.Type
+	qn          int
+	specDepth   int
+	tags        map[string]int
+	tagTypes    []types.Type
+	strs        map[string]int
+	abstr       map[string]bool // abstractions used (reported)
+	externs     map[string]bool // default-external callees used
+	assumed     map[string]bool // assumed contracts used (interfaces, externs, trusted)
+	inlined     map[string]bool
+	entry       *State
+	safeCount   map[string]int
+	errs        []string
+	paramObs    []Observable
 	usedAsserts map[string]bool
-	topFrame  *Frame
-	cellPtr   map[string]Val // local cells holding interior pointers
-	names     map[string]int
-	countCache map[string]string
-	kinds     map[string]string // heap key -> leaf kind
-	leafTyp   map[string]types.Type
-	disabled  map[string]bool // Houdini: candidate invariants that failed
-	loopRefs  map[*ssa.BasicBlock]*State
+	topFrame    *Frame
+	cellPtr     map[string]Val // local cells holding interior pointers
+	names       map[string]int
+	countCache  map[string]string
+	kinds       map[string]string // heap key -> leaf kind
+	leafTyp     map[string]types.Type
+	disabled    map[string]bool // Houdini: candidate invariants that failed
+	loopRefs    map[*ssa.BasicBlock]*State
 }
 
 var addrOnce sync.Once
